@@ -97,7 +97,14 @@ def run_tasks(tasks, base_spec, workdir, nproc, hard_limit_s=None):
       else:
         with open(epath) as f:
           err = f.read()[-4000:]
-        results[i] = {"fatal": f"worker exited {p.returncode} without result\n{err}",
+        last = ""
+        try:
+          with open(os.path.join(workdir, f"current{i}.json")) as f:
+            last = f.read()[:1500]
+        except OSError:
+          pass
+        results[i] = {"fatal": f"worker exited {p.returncode} without result (task "
+                               f"{tasks[i].get('shard', {}).get('name')}); last case handed to check(): {last}\n{err}",
                       "task": tasks[i]}
     running = still
   return results
